@@ -471,6 +471,11 @@ class CorrData(AsciiSerializable, SampledData, Broadcastable):
 
             path_prefix = Path(path_prefix)
 
+            # remove files of an earlier result first, a mix of old and new files
+            # must never be read back together
+            for suffix in (".dat", ".smp", ".cov"):
+                path_prefix.with_suffix(suffix).unlink(missing_ok=True)
+
             write_data(
                 path_prefix.with_suffix(".dat"),
                 self._description_data,
